@@ -484,6 +484,25 @@ func specialScenarios(start int, seed uint64, thorough bool) []*Scenario {
 		}
 		add(sc)
 	}
+	// S6: response DATA that arrives after the application closed / abandoned the body is
+	// discarded; every byte of it must come back as connection credit. Small frames, a slow
+	// peer reader and a concurrent upload keep the client's RST_STREAM (and with it
+	// forgetStreamID) late, so that frames hit both discard paths of processData.
+	for _, chunk := range []int{1000, 3000} {
+		sc := defaultScenario(0, seed, fmt.Sprintf("S6-discard-after-close-%d", chunk))
+		sc.C2PBuf = 2048
+		sc.ReadDelayUs = 1000
+		sc.PeerSettings = [][2]uint32{{3, 100}, {4, 1 << 20}}
+		sc.InitConnWU = 1 << 22
+		sc.Reqs = []ReqSpec{
+			{Upload: 300000, RespSize: 1, RespChunk: 16384, App: appReadAll},
+			{Upload: -1, RespSize: 400000, RespChunk: chunk, App: appPrefixClose, AppArg: 3000, StartDelayUs: 3000},
+			{Upload: -1, RespSize: 400000, RespChunk: chunk, App: appCloseNow, StartDelayUs: 3000},
+			{Upload: -1, RespSize: 200000, RespChunk: chunk, NoCL: true, App: appCancel, AppArg: 2000, StartDelayUs: 5000},
+			{Upload: -1, RespSize: 100000, RespChunk: chunk, RespPad: 7, App: appPrefixClose, AppArg: 1, StartDelayUs: 5000},
+		}
+		add(sc)
+	}
 	// S4: SETTINGS applied+acked between awaitFlowControl and the DATA write.
 	reps := 2
 	if thorough {
